@@ -1,0 +1,64 @@
+//! Visibility-only wrappers of gossip internals for the deterministic-simulation harness.
+//! Compiled only with `--cfg era_consensus_verif`; pure delegation.
+#![allow(missing_docs)]
+use std::sync::Arc;
+
+use zksync_concurrency::{ctx, oneshot, sync, time};
+use zksync_consensus_engine::BlockStoreState;
+use zksync_consensus_roles::validator;
+
+/// `gossip::fetch::Queue`.
+#[derive(Default)]
+pub struct FetchQueue(super::fetch::Queue);
+
+impl FetchQueue {
+    pub fn current_blocks(&self) -> Vec<u64> {
+        self.0.current_blocks()
+    }
+    pub async fn request_block(
+        &self,
+        ctx: &ctx::Ctx,
+        n: validator::BlockNumber,
+    ) -> ctx::OrCanceled<()> {
+        self.0.request(ctx, super::fetch::RequestItem::Block(n)).await
+    }
+    pub async fn accept_block(
+        &self,
+        ctx: &ctx::Ctx,
+        available: &mut sync::watch::Receiver<BlockStoreState>,
+    ) -> ctx::OrCanceled<(validator::BlockNumber, oneshot::Sender<()>)> {
+        self.0.accept_block(ctx, available).await
+    }
+}
+
+/// `gossip::ValidatorAddrsWatch`.
+#[derive(Default)]
+pub struct ValidatorAddrsWatch(super::ValidatorAddrsWatch);
+
+impl ValidatorAddrsWatch {
+    pub fn current(&self) -> Vec<Arc<validator::Signed<validator::NetAddress>>> {
+        self.0.current().values().cloned().collect()
+    }
+    pub async fn announce(
+        &self,
+        key: &validator::SecretKey,
+        addr: std::net::SocketAddr,
+        timestamp: time::Utc,
+    ) {
+        self.0.announce(key, addr, timestamp).await
+    }
+    pub async fn update(
+        &self,
+        validators: &validator::Schedule,
+        data: &[Arc<validator::Signed<validator::NetAddress>>],
+    ) -> anyhow::Result<()> {
+        self.0.update(validators, data).await
+    }
+    /// `ValidatorAddrs::get_newer(self.current, other.current)`: what this book would push to a
+    /// peer whose book is `other`.
+    pub fn get_newer(&self, other: &Self) -> Vec<Arc<validator::Signed<validator::NetAddress>>> {
+        let a = self.0.subscribe().borrow().clone();
+        let b = other.0.subscribe().borrow().clone();
+        a.get_newer(&b)
+    }
+}
